@@ -20,7 +20,6 @@ import (
 	"sync"
 
 	"verif/mc"
-	"verif/ref/qr"
 
 	"github.com/makiuchi-d/gozxing"
 	"github.com/makiuchi-d/gozxing/qrcode"
@@ -36,6 +35,17 @@ var (
 	statMu sync.Mutex
 	stats  = map[string]map[string]int{}
 )
+
+var outcomeTally = map[string]int{}
+
+// tally counts observed outcome classes; the table goes into the evidence file so that a reader can
+// see that refusals, every mode and every hint combination really occurred.
+func tally(l *mc.Local, class string) {
+	l.Distinct("outcomes", class)
+	statMu.Lock()
+	outcomeTally[class]++
+	statMu.Unlock()
+}
 
 func noteFailure(attrs ...string) {
 	statMu.Lock()
@@ -246,7 +256,7 @@ func boundaryCase(l *mc.Local, j bjob) {
 		c.expect = expTooLong
 	}
 	outcome, w := evaluate(l, c)
-	l.Distinct("outcomes", fmt.Sprintf("%s/%s/%s/%s", sub, j.m, deltaName(j.delta), outcome))
+	tally(l, fmt.Sprintf("%s/%s/%s/%s", sub, j.m, deltaName(j.delta), outcome))
 	switch outcome {
 	case "refused-too-long":
 		l.Distinct("nontrivial", fmt.Sprintf("%s refused v%d %c %s %s", sub, j.v, levelNames[j.lv], j.m, deltaName(j.delta)))
@@ -404,7 +414,7 @@ func smallCase(l *mc.Local, text string, o opt) {
 	if w.code != nil {
 		mode = w.code.GetMode().String()
 	}
-	l.Distinct("outcomes", fmt.Sprintf("small/%s/cs=%s/vh=%d/lib-mode=%s/model-mode=%s", outcome, cs, o.Version, mode, e.mode))
+	tally(l, fmt.Sprintf("small/%s/cs=%s/vh=%d/lib-mode=%s/model-mode=%s", outcome, cs, o.Version, mode, e.mode))
 	switch outcome {
 	case "ok", "refused-unrepresentable", "refused-too-long":
 		l.Distinct("nontrivial", fmt.Sprintf("small %q %v", text, o))
@@ -486,8 +496,23 @@ func requested(kind, natural int) (int, int) {
 	return natural, 3 * natural
 }
 
+// marginName: margin -1 stands for "no MARGIN hint" (the default quiet zone of 4 modules).
+func marginName(m int) string {
+	if m < 0 {
+		return "margin=default"
+	}
+	return fmt.Sprintf("margin=%d", m)
+}
+
+func effMargin(m int) int {
+	if m < 0 {
+		return 4
+	}
+	return m
+}
+
 func (j ijob) rcase() rcase {
-	w, h := requested(j.sizeKind, 17+4*j.v+2*j.margin)
+	w, h := requested(j.sizeKind, 17+4*j.v+2*effMargin(j.margin))
 	return rcase{Sub: "image", Family: j.m.String(), Len: j.n, Start: j.start, Level: j.lv, Mask: -1, Version: j.v, Charset: j.m.charset(), W: w, H: h, Margin: j.margin}
 }
 
@@ -496,7 +521,9 @@ func imageCase(l *mc.Local, rc rcase, sizeKind string) {
 	o := rc.opt()
 	h := o.hints()
 	h[gozxing.EncodeHintType_ERROR_CORRECTION] = libLevels[o.Level]
-	h[gozxing.EncodeHintType_MARGIN] = rc.Margin
+	if rc.Margin >= 0 {
+		h[gozxing.EncodeHintType_MARGIN] = rc.Margin
+	}
 	l.Beat(fmt.Sprintf("image %+v", rc))
 	var img *gozxing.BitMatrix
 	var err error
@@ -504,10 +531,10 @@ func imageCase(l *mc.Local, rc rcase, sizeKind string) {
 		img, err = qrcode.NewQRCodeWriter().Encode(text, gozxing.BarcodeFormat_QR_CODE, rc.W, rc.H, h)
 	})
 	l.Count("evaluations", 1)
-	key := fmt.Sprintf("C01/image/size=%s/margin=%d", sizeKind, rc.Margin)
+	key := fmt.Sprintf("C01/image/size=%s/%s", sizeKind, marginName(rc.Margin))
 	fail := func(key, kind, what string) {
-		chk.Violation(key+"/"+kind, fmt.Sprintf("%s; version %d level %c, requested %dx%d margin %d, text %s (%s, %d units)", what, rc.Version, levelNames[rc.Level], rc.W, rc.H, rc.Margin, short(text), rc.Family, rc.Len), rc)
-		noteFailure("sub", "image", "kind", kind, "family", rc.Family, "size", sizeKind, "margin", fmt.Sprint(rc.Margin), "level", string(levelNames[rc.Level]), "version-hint", vclass(rc.Version))
+		chk.Violation(key+"/"+kind, fmt.Sprintf("%s; version %d level %c, requested %dx%d %s, text %s (%s, %d units)", what, rc.Version, levelNames[rc.Level], rc.W, rc.H, marginName(rc.Margin), short(text), rc.Family, rc.Len), rc)
+		noteFailure("sub", "image", "kind", kind, "family", rc.Family, "size", sizeKind, "margin", marginName(rc.Margin), "level", string(levelNames[rc.Level]), "version-hint", vclass(rc.Version))
 	}
 	if pm != "" {
 		fail("C01/panic/"+site, "writer", "QRCodeWriter panicked: "+pm)
@@ -519,7 +546,11 @@ func imageCase(l *mc.Local, rc rcase, sizeKind string) {
 	}
 	r := decodeImage(img)
 	kind, what := checkRead(text, rc.Level, r, true)
-	l.Distinct("outcomes", fmt.Sprintf("image/%s/%s/margin=%d/%s", sizeKind, rc.Family, rc.Margin, kind))
+	oc := kind
+	if oc == "" {
+		oc = "ok"
+	}
+	tally(l, fmt.Sprintf("image/size=%s/%s/%s", sizeKind, marginName(rc.Margin), oc))
 	if kind != "" {
 		if strings.HasPrefix(kind, "panic/") {
 			fail("C01/"+kind, "reader", what)
@@ -537,17 +568,17 @@ func runImage() {
 	for v := 1; v <= 40; v++ {
 		versions = append(versions, v)
 	}
-	name := "(c) image level: version 1..40 (forced) x level{L,M,Q,H} x requested size{0, natural, natural+1, 2natural+3, 3natural, 2 non-square} x margin{4,5,9}; automatic mask; payload family rotates with (version+level), length = 2/3 capacity; QRCodeWriter -> NewBinaryBitmapFromImage -> QRCodeReader PURE_BARCODE"
+	name := "(c) image level: version 1..40 (forced) x level{L,M,Q,H} x requested size{0, natural, natural+1, 2natural+3, 3natural, 2 non-square} x margin{no hint,4,5,9}; automatic mask; payload family rotates with (version+level), length = 2/3 capacity; QRCodeWriter -> NewBinaryBitmapFromImage -> QRCodeReader PURE_BARCODE"
 	if chk.Quick() {
 		versions = []int{1, 2, 6, 7, 9, 10, 26, 27, 33, 40}
-		name = "(c) image level: version {1,2,6,7,9,10,26,27,33,40} (forced) x level{L,M,Q,H} x requested size{0, natural, natural+1, 2natural+3, 3natural, 2 non-square} x margin{4,5,9}; automatic mask; payload family rotates with (version+level), length = 2/3 capacity; QRCodeWriter -> NewBinaryBitmapFromImage -> QRCodeReader PURE_BARCODE"
+		name = "(c) image level: version {1,2,6,7,9,10,26,27,33,40} (forced) x level{L,M,Q,H} x requested size{0, natural, natural+1, 2natural+3, 3natural, 2 non-square} x margin{no hint,4,5,9}; automatic mask; payload family rotates with (version+level), length = 2/3 capacity; QRCodeWriter -> NewBinaryBitmapFromImage -> QRCodeReader PURE_BARCODE"
 	}
 	var jobs []ijob
 	var next [numPmodes]int
 	for _, v := range versions {
 		for lv := 0; lv < 4; lv++ {
 			for sk := range sizeKinds {
-				for _, mg := range []int{4, 5, 9} {
+				for _, mg := range []int{-1, 4, 5, 9} {
 					m := pmode((v + lv) % int(numPmodes))
 					c := capacityOf(m, v, lv)
 					j := ijob{m: m, v: v, lv: lv, sizeKind: sk, margin: mg, n: c - c/3}
@@ -577,7 +608,7 @@ func replay() {
 	switch rc.Sub {
 	case "image":
 		kind := "replay"
-		nat := 17 + 4*rc.Version + 2*rc.Margin
+		nat := 17 + 4*rc.Version + 2*effMargin(rc.Margin)
 		for k := range sizeKinds {
 			if w, h := requested(k, nat); w == rc.W && h == rc.H {
 				kind = sizeKinds[k]
@@ -597,7 +628,7 @@ func replay() {
 					continue
 				}
 				d := rc.Len - capacityOf(m, v, rc.Level)
-				if d < -2 || d > 1 {
+				if d < -2 || d > 1 || (rc.Sub == "autoversion" && d < 0) {
 					continue
 				}
 				boundaryCase(l, bjob{m: m, v: v, lv: rc.Level, delta: d, mask: rc.Mask, auto: rc.Sub == "autoversion", n: rc.Len, start: rc.Start})
@@ -659,6 +690,6 @@ func main() {
 	chk.Sample("image", ijob{m: pKanji, v: 7, lv: 2, sizeKind: 3, margin: 5, n: 40}.rcase())
 
 	printFailureSummary()
-	_ = qr.MinVersion
+	chk.Subspace("observed outcome classes (cases)", outcomeTally)
 	chk.Finish()
 }
